@@ -79,6 +79,33 @@ pub(crate) mod verif_probe {
                     Err(e) => Some(json!({"err": format!("{:?}", e), "pos": cur.position()})),
                 }
             }
+            "decode_terminates" => {
+                // does the decoder come back (Ok, Err or a panic of its own thread) on these bytes?  A decoder that spins holds a runtime
+                // worker for good: with `worker_threads` such clients every other client is blocked.
+                let b = buf(v);
+                let which = v["which"].as_str().unwrap_or("").to_string();
+                let (tx, rx) = std::sync::mpsc::channel();
+                std::thread::spawn(move || {
+                    let r = std::panic::catch_unwind(std::panic::AssertUnwindSafe(|| {
+                        match which.as_str() {
+                            "parse_startup" => format!("{:?}", parse_startup(b).map(|m| m.len())),
+                            "parse_params" => format!("{:?}", parse_params(b).map(|m| m.len())),
+                            "Parse" => format!("{:?}", Parse::try_from(&b).is_ok()),
+                            "Bind" => format!("{:?}", Bind::try_from(&b).is_ok()),
+                            "Describe" => format!("{:?}", Describe::try_from(&b).is_ok()),
+                            "Close" => format!("{:?}", Close::try_from(&b).is_ok()),
+                            "Bind::get_name" => format!("{:?}", Bind::get_name(&b).is_ok()),
+                            "Parse::get_name" => format!("{:?}", Parse::get_name(&b).is_ok()),
+                            _ => "unknown decoder".to_string(),
+                        }
+                    }));
+                    let _ = tx.send(match r { Ok(s) => s, Err(_) => "panic".to_string() });
+                });
+                match rx.recv_timeout(std::time::Duration::from_secs(3)) {
+                    Ok(s) => Some(json!({"finished": true, "result": s})),
+                    Err(_) => Some(json!({"finished": false})),
+                }
+            }
             "parse_hash" => {
                 // two Parse values built through the real decoder from their wire encodings
                 let a = Parse::try_from(&BytesMut::from(&unhex(v["a"].as_str().unwrap())[..])).unwrap();
